@@ -21,6 +21,7 @@
 #include <pika/thread.hpp>
 
 #include <atomic>
+#include <exception>
 #include <chrono>
 #include <cstdlib>
 #include <cstring>
@@ -862,6 +863,19 @@ int main(int argc, char** argv)
     g_tasks = new std::vector<tinfo>(max_tasks);
     e2::g_filter = &life_filter;
     e2::install(g_seed, perturb);
+    // std::terminate (an error completion that start_detached cannot deliver, an exception leaving a noexcept function):
+    // report what was thrown together with the complete log instead of dying with pika's abort handler
+    std::set_terminate([] {
+        std::string what = "no active exception";
+        if (auto ep = std::current_exception())
+        {
+            try { std::rethrow_exception(ep); }
+            catch (std::exception const& e) { what = e.what(); }
+            catch (...) { what = "unknown exception type"; }
+        }
+        monitor("exception: std::terminate was called: " + what.substr(0, 300));
+        finish("crash terminate");
+    });
     pika::verif::sink.store(&life_sink);
     std::thread wd(watchdog);
     wd.detach();
